@@ -61,6 +61,7 @@ func sameSlice[T any](a, b []T) bool             { return len(a) == len(b) }
 func sameVal[T any](a, b T) bool                 { return true }
 func sameBase[T any](a, b []T) bool              { return true }
 func freshBase[T any](a []T) bool                { return true }
+func present(x any) bool                          { return x != nil }
 func uninterp[T any](name string, args ...any) T { var z T; return z }
 func outCount() int                              { return 0 }
 func outFirst() any                              { return nil }
@@ -80,6 +81,24 @@ func outLast() any                               { return nil }
 // ---------------------------------------------------------------------------
 // lexer: representation invariant, assumed on entry of every function that
 // takes a *lexer and re-established by every contracted method
+
+// The semantic actions of grammar.y are verified as functions pathAction_N that
+// govc extracts from grammar.go on every run. These symbols always carry a
+// node (the optional ones - opt_datetime_precision, opt_datetime_template and
+// what they derive from on the empty alternative - may be nil):
+//@ grammar nonnil scalar_value path_primary expr array_accessor any_path accessor_op key predicate delimited_predicate index_elem starts_with_initial expr_or_predicate datetime_template csv_elem datetime_precision method accessor_expr csv_list index_list
+//@ grammar props C03 C04
+//@ grammar inv comp_op comparison: self.optype >= ast.BinaryEqual && self.optype <= ast.BinaryGreaterOrEqual
+//@ grammar inv index_elem subscript: is[*ast.BinaryNode](self.value) && as[*ast.BinaryNode](self.value).Operator() == ast.BinarySubscript
+//@ grammar inv index_list subscripts: forall(func(i int) bool { return implies(0 <= i && i < len(self.indexs), is[*ast.BinaryNode](self.indexs[i]) && as[*ast.BinaryNode](self.indexs[i]).Operator() == ast.BinarySubscript) })
+// clauses attached to particular rules, by their shape in grammar.y
+//@ grammar rule any_level: INT_P :: ensures [C03] level-is-the-literal: int64(r0.integer) == uninterp[int64]("ext_strconv_ParseInt_r0", pathDollar[1].str, 0, 64)
+//@ grammar rule expr: '-' expr :: ensures [C03] minus: ncalls(ast.NewUnaryOrNumber) == 1 && callarg[ast.UnaryOperator](ast.NewUnaryOrNumber, "op") == ast.UnaryMinus && callarg[ast.Node](ast.NewUnaryOrNumber, "node") == pathDollar[2].value && r0.value == callret[ast.Node](ast.NewUnaryOrNumber, 0)
+//@ grammar rule expr: '+' expr :: ensures [C03] plus: ncalls(ast.NewUnaryOrNumber) == 1 && callarg[ast.UnaryOperator](ast.NewUnaryOrNumber, "op") == ast.UnaryPlus && callarg[ast.Node](ast.NewUnaryOrNumber, "node") == pathDollar[2].value && r0.value == callret[ast.Node](ast.NewUnaryOrNumber, 0)
+//@ grammar rule expr: expr '-' expr :: ensures [C03] operands-in-order: ncalls(ast.NewBinary) == 1 && callarg[ast.BinaryOperator](ast.NewBinary, "op") == ast.BinarySub && callarg[ast.Node](ast.NewBinary, "left") == pathDollar[1].value && callarg[ast.Node](ast.NewBinary, "right") == pathDollar[3].value
+//@ grammar rule expr: expr '/' expr :: ensures [C03] operands-in-order: ncalls(ast.NewBinary) == 1 && callarg[ast.BinaryOperator](ast.NewBinary, "op") == ast.BinaryDiv && callarg[ast.Node](ast.NewBinary, "left") == pathDollar[1].value && callarg[ast.Node](ast.NewBinary, "right") == pathDollar[3].value
+//@ grammar rule expr: expr '%' expr :: ensures [C03] operands-in-order: ncalls(ast.NewBinary) == 1 && callarg[ast.BinaryOperator](ast.NewBinary, "op") == ast.BinaryMod && callarg[ast.Node](ast.NewBinary, "left") == pathDollar[1].value && callarg[ast.Node](ast.NewBinary, "right") == pathDollar[3].value
+//@ grammar rule predicate: expr comp_op expr :: ensures [C03] operands-in-order: ncalls(ast.NewBinary) == 1 && callarg[ast.BinaryOperator](ast.NewBinary, "op") == pathDollar[2].optype && callarg[ast.Node](ast.NewBinary, "left") == pathDollar[1].value && callarg[ast.Node](ast.NewBinary, "right") == pathDollar[3].value
 
 //@ typeinv lexer [C04] buffer: self.srcPos >= 0 && self.srcPos <= self.srcEnd && self.srcEnd == len(self.srcBuf) && self.srcEnd <= 4611686018427387903 && self.lastCharLen >= 0 && self.lastCharLen <= self.srcPos && self.lastCharLen <= 4
 //@ typeinv lexer [C04] token: self.tokPos >= -1 && self.tokPos <= self.srcEnd && self.tokEnd <= self.srcEnd
